@@ -31,7 +31,7 @@ def roots():
             sym.field(("byte",), "tag", 7), sym.field(("uint", 33), "big", 4)])])
 
     def r_enum_alias(ids):
-        e = sym.enum(ids, "Color", 3, [("COLOR_NONE", 0), ("COLOR_RED", 1), ("COLOR_BLUE", 6)])
+        e = sym.enum(ids, "Color", 3, [("COLOR_BLUE", 6), ("COLOR_NONE", 0), ("COLOR_RED", 1)])
         a = sym.alias(ids, "Stamp", ("int", 24))
         m = sym.msg(ids, ROOT_MSG, False, [sym.field(("ref", e["id"]), "color", 1), sym.field(("ref", a["id"]), "stamp", 2),
                                             sym.field(sym.arr(("bool",), 3), "bits", 3), sym.field(sym.arr(("uint", 9), 2, True), "vals", 4)])
@@ -430,6 +430,57 @@ def _c_check(rname, state, hist, proto, pkt, leaves, vecs, root_bytes, sc, out, 
         out.violation(check="encode-c", symptom="fault", site="c", features=[], desc="harness fault %s" % e, detail=e.stderr)
     finally:
         h.close()
+    # optimization mode (traditional states): the rewritten schema's -O encoder must give the root's bytes too
+    text = "\n".join(texts(state).values())
+    if "'" in text:
+        return
+    try:
+        cbo = _CBO([scope.Case("x", pkt)], sc.sub(tag + "o"), proto)
+        cbo.build("std-O1")
+        h2 = cbo.harness("std-O1")
+    except Exception as e:
+        out.violation(check="pipeline-c-O", symptom=type(e).__name__, site="c-build", features=[], sig_features=[hist[-1][0] if hist else "root"],
+                      desc="root %s history %s: C -O build failed" % (rname, list(hist)), detail=str(e)[-1500:], schema=texts(state),
+                      replay=dict(kind="c12", root=ridx, state=pack(state)))
+        return
+    try:
+        enc = h2.encode_many(0, [h2.image(0, leaves, v) for v in vecs])
+        out.count("c_opt_states")
+        out.count("evaluations", len(vecs))
+        out.count("traces", len(vecs))
+        for v, (flag, b), rb in zip(vecs, enc, root_bytes):
+            if b != rb:
+                out.violation(check="encode-c-O", symptom="bytes_changed_by_rewrite", site="wire format (C -O)", features=[], sig_features=[hist[-1][0] if hist else "root"],
+                              desc="root %s history %s: vec=%s root bytes %s C -O bytes of rewritten schema %s" % (rname, list(hist), v, rb.hex(), b.hex()),
+                              schema=texts(state), replay=dict(kind="c12", root=ridx, state=pack(state)))
+                break
+    except cback.HarnessFault as e:
+        out.violation(check="encode-c-O", symptom="fault", site="c", features=[], desc="harness fault %s" % e, detail=e.stderr)
+    finally:
+        h2.close()
+
+
+class _CBO(cback.CBatch):
+    """-O CBatch over an explicit ProtoFile."""
+
+    def __init__(self, cases, workdir, proto):
+        import os, shutil
+        from ..ir import write_files
+        self.cases = cases
+        self.dir = workdir
+        self.optimize = True
+        self.endian = "both"
+        os.makedirs(workdir, exist_ok=True)
+        self.batch = proto
+        write_files(proto, workdir)
+        self.texts = cback.render_c_files(os.path.join(workdir, proto.filename), workdir, optimize=True, endian="both")
+        self.macros = cback.bytes_length_macros(self.texts)
+        self.gen_c = sorted(n for n in self.texts if n.endswith(".c"))
+        self.main_header = proto.stem + "_bp.h"
+        with open(os.path.join(workdir, "harness.c"), "w") as f:
+            f.write(cback.gen_harness(cases, self.main_header, self.macros, with_json=False))
+        shutil.copy(cback.CORE, os.path.join(workdir, "harness_core.c"))
+        self.exes = {}
 
 
 def units(tier):
@@ -448,7 +499,7 @@ def main(pid, tier):
             g.append("rewrite %s never applied" % need)
     cov = dict(states=c["states"], transitions=c["bfs_transitions"] + c["transitions"], traces_validated_against_impl=c["traces"],
                evaluations=c["evaluations"], distinct_nontrivial=c["nontrivial"], roots=len(roots()), bfs_edges=c["bfs_transitions"],
-               states_also_checked_in_C=c["c_states"],
+               states_also_checked_in_C=c["c_states"], states_also_checked_in_C_optimization_mode=c["c_opt_states"],
                rule="BFS over rewrite events (rename definitions/fields/members, reorder field declarations, swap independent definitions, introduce/"
                     "inline alias, nested<->top level, move into imported file with/without `as`, comments/whitespace/semicolons, capacity literal -> "
                     "constant / K*1 / (K+1)-1, renumber +1 / x2) to depth %d from %d roots, canonical de-duplication; every state compiled by the real "
